@@ -2,6 +2,7 @@ package daemon
 
 import (
 	"os"
+	"runtime"
 
 	"golang.org/x/sys/unix"
 )
@@ -69,6 +70,13 @@ func vtFd(file *os.File) uintptr {
 		return ^uintptr(0)
 	}
 	return f.fd
+}
+
+func vtName1(file *os.File) string {
+	if f := vtLookup(file); f != nil {
+		return f.path
+	}
+	return ""
 }
 
 func vtDropLocks(pid int) {
@@ -174,6 +182,7 @@ var verifStubs = map[string]any{
 	"os.OpenFile":                        vtOpen,
 	"(*os.File).Fd":                      vtFd,
 	"(*os.File).Close":                   vtClose,
+	"(*os.File).Name":                    vtName1,
 	"golang.org/x/sys/unix.FcntlFlock":   vtFcntlFlock,
 }
 
@@ -249,5 +258,222 @@ func VerifC28Lock() {
 	}
 	for _, path := range vtPaths {
 		vAssert(path == "/data/daemon/daemon.lock", "only the daemon lock file is opened")
+	}
+}
+
+// ---------- concurrent processes (bounded-schedule mode) ----------
+//
+// Each model process is a goroutine; every model system call is a scheduling
+// point, so calls of different processes interleave at system-call granularity
+// (within the preemption bound).  The file namespace is modelled as well: a
+// path names an inode, open(O_CREATE) creates one if the path is unbound,
+// unlink/rename rebind paths, and record locks belong to (process, inode).
+
+type vtInode struct{ id int }
+
+type vtFile2 struct {
+	file  *os.File
+	fd    uintptr
+	pid   int
+	inode *vtInode
+	open  bool
+	name  string
+}
+
+type vtLock2 struct {
+	pid   int
+	inode *vtInode
+	write bool
+}
+
+var (
+	vtNames  map[string]*vtInode
+	vtFiles2 []*vtFile2
+	vtLocks2 []vtLock2
+	vtInodes int
+	vtHolds  []bool // own bookkeeping: process p was told it holds the lock and has not begun to release it
+)
+
+func vtMe() int { return vGoroutine() }
+
+func vtOpen2(name string, flag int, perm os.FileMode) (*os.File, error) {
+	runtime.Gosched()
+	ino := vtNames[name]
+	if ino == nil {
+		if flag&os.O_CREATE == 0 {
+			return nil, os.ErrNotExist
+		}
+		vtInodes++
+		ino = &vtInode{vtInodes}
+		vtNames[name] = ino
+	}
+	vtNextFd++
+	f := &vtFile2{file: &os.File{}, fd: vtNextFd, pid: vtMe(), inode: ino, open: true, name: name}
+	vtFiles2 = append(vtFiles2, f)
+	return f.file, nil
+}
+
+func vtLookup2(file *os.File) *vtFile2 {
+	for _, f := range vtFiles2 {
+		if f.file == file {
+			return f
+		}
+	}
+	return nil
+}
+
+func vtFd2(file *os.File) uintptr {
+	if f := vtLookup2(file); f != nil && f.open {
+		return f.fd
+	}
+	return ^uintptr(0)
+}
+
+func vtDrop2(pid int, ino *vtInode) {
+	var keep []vtLock2
+	for _, l := range vtLocks2 {
+		if !(l.pid == pid && l.inode == ino) {
+			keep = append(keep, l)
+		}
+	}
+	vtLocks2 = keep
+}
+
+func vtClose2(file *os.File) error {
+	runtime.Gosched()
+	f := vtLookup2(file)
+	if f == nil || !f.open {
+		return os.ErrClosed
+	}
+	f.open = false
+	vtDrop2(f.pid, f.inode)
+	return nil
+}
+
+func vtRemove2(name string) error {
+	runtime.Gosched()
+	if vtNames[name] == nil {
+		return os.ErrNotExist
+	}
+	delete(vtNames, name)
+	return nil
+}
+
+func vtName2(file *os.File) string {
+	if f := vtLookup2(file); f != nil {
+		return f.name
+	}
+	return ""
+}
+
+// vtWriteFileAtomic2: a new file (a new inode) replaces whatever the path named.
+func vtWriteFileAtomic2(path string, data []byte, permissions os.FileMode) error {
+	runtime.Gosched()
+	vtInodes++
+	vtNames[path] = &vtInode{vtInodes}
+	return nil
+}
+
+func vtRename2(oldpath, newpath string) error {
+	runtime.Gosched()
+	ino := vtNames[oldpath]
+	if ino == nil {
+		return os.ErrNotExist
+	}
+	vtNames[newpath] = ino
+	delete(vtNames, oldpath)
+	return nil
+}
+
+func vtFcntl2(fd uintptr, cmd int, lk *unix.Flock_t) error {
+	runtime.Gosched()
+	var f *vtFile2
+	for _, x := range vtFiles2 {
+		if x.open && x.fd == fd && x.pid == vtMe() {
+			f = x
+		}
+	}
+	if f == nil {
+		return unix.EBADF
+	}
+	// whole-file locks only (what the code under test uses); anything else is
+	// outside this model
+	if lk.Whence != 0 || lk.Start != 0 || lk.Len != 0 {
+		vFail("record-lock model: only whole-file locks are modelled in the concurrent harness")
+	}
+	switch lk.Type {
+	case unix.F_UNLCK:
+		vtDrop2(f.pid, f.inode)
+		return nil
+	case unix.F_WRLCK, unix.F_RDLCK:
+		write := lk.Type == unix.F_WRLCK
+		for _, l := range vtLocks2 {
+			if l.pid != f.pid && l.inode == f.inode && (write || l.write) {
+				if cmd == unix.F_SETLKW {
+					vFail("the lock attempt blocks instead of failing while another process holds the lock")
+				}
+				return unix.EAGAIN
+			}
+		}
+		vtDrop2(f.pid, f.inode)
+		vtLocks2 = append(vtLocks2, vtLock2{f.pid, f.inode, write})
+		return nil
+	}
+	return unix.EINVAL
+}
+
+var verifStubs_VerifC28Concurrent = map[string]any{
+	"github.com/mutagen-io/mutagen/pkg/daemon.subpath": vtSubpath,
+	"os.OpenFile":                      vtOpen2,
+	"(*os.File).Fd":                    vtFd2,
+	"(*os.File).Close":                 vtClose2,
+	"os.Remove":                        vtRemove2,
+	"os.Rename":                        vtRename2,
+	"(*os.File).Name":                  vtName2,
+	"github.com/mutagen-io/mutagen/pkg/filesystem.WriteFileAtomic": vtWriteFileAtomic2,
+	"golang.org/x/sys/unix.FcntlFlock": vtFcntl2,
+}
+
+func vtProcess(done chan struct{}, rounds int) {
+	me := vtMe()
+	for r := 0; r < rounds; r++ {
+		l, err := AcquireLock()
+		if err != nil {
+			continue
+		}
+		for q, h := range vtHolds {
+			vAssert(q == me || !h, "two live processes hold the daemon lock at the same time")
+		}
+		vtHolds[me] = true
+		vCover("acquired concurrently")
+		runtime.Gosched() // the daemon does its work
+		vtHolds[me] = false
+		l.Release()
+	}
+	done <- struct{}{}
+}
+
+// VerifC28Concurrent: n processes each try `rounds` times to become the daemon
+// and release again, their system calls interleaving arbitrarily (within the
+// preemption bound): never two holders at once.
+func VerifC28Concurrent() {
+	n := vParam("processes", 2)
+	vtNames = map[string]*vtInode{}
+	vtFiles2, vtLocks2, vtInodes, vtNextFd = nil, nil, 0, 2
+	if vChoose(2) == 1 {
+		// the lock file exists already (normal case); otherwise a fresh data directory
+		vtInodes++
+		vtNames["/data/daemon/daemon.lock"] = &vtInode{vtInodes}
+		vCover("lock file exists")
+	} else {
+		vCover("fresh data directory")
+	}
+	vtHolds = make([]bool, n+1)
+	done := make(chan struct{}, n)
+	for i := 0; i < n; i++ {
+		go vtProcess(done, vParam("rounds", 2))
+	}
+	for i := 0; i < n; i++ {
+		<-done
 	}
 }
